@@ -1,0 +1,6 @@
+//go:build !verif
+
+package blockstore
+
+// verifPoint is a no-op in normal builds; see verif_hooks.go.
+func verifPoint(site string, args ...any) {}
